@@ -68,9 +68,18 @@ def run(ctx):
     # B per (format, channels, rate): the frame count a 1-frame file reports (block rounding), at least 1
     blocks = {}
     cur = None
+    ok_w = False
+    neg_stale_failed = None
     for (ln, kind, a) in plan:
-        if kind == "reopen" and ln in hl and hl[ln][1].get("ok") == "1" and a["n"] == 1:
+        if kind == "wopen" and ln in hl:
+            ok_w = hl[ln][1].get("ok") == "1"
+            if not ok_w and " -7" in script.split("\n")[ln - 1] and neg_stale_failed is None:
+                neg_stale_failed = ln
+        if kind == "reopen" and ok_w and ln in hl and hl[ln][1].get("ok") == "1" and a["n"] == 1:
             blocks[(a["f"], a["ch"], a["rate"])] = max(1, int(hl[ln][1]["frames"]))
+    if neg_stale_failed is not None:
+        ctx.violation("wopen:negative_stale_frames", "sf_open (SFM_WRITE) fails when the caller's SF_INFO.frames is negative: %s" % hl[neg_stale_failed][2][:160],
+                      script.split("\n")[neg_stale_failed - 1])
     seen = set()
     n = 0
     wrote_ok = True
@@ -96,6 +105,8 @@ def run(ctx):
             N = accepted
             if d.get("ok") != "1":
                 key, msg = "%s:cannot_reopen" % fam, "N=%d ch=%d rate=%d: %s" % (N, a["ch"], a["rate"], hl[ln][2][:160])
+                if a["mj"] == "PVF" and a["ch"] < 10 and a["rate"] < 10 and a["sb"] == "PCM_S8":
+                    key = "PVF:header_shorter_than_12_bytes"
             else:
                 info = dict(a, F=int(d["frames"]), N=N)
                 F = info["F"]
